@@ -10,7 +10,7 @@ import ast
 import os
 import sys
 from dataclasses import dataclass, field
-from typing import Any, Dict, Iterator, List, Optional, Tuple
+from typing import Any, Dict, Iterator, List, Optional, Set, Tuple
 
 
 class AnalysisError(Exception):
@@ -228,6 +228,44 @@ class Program:
             mod.toplevel = list(live_statements(mod.tree.body))
             for st in mod.toplevel:
                 self._bind_stmt(mod, st)
+            # names bound only under `if TYPE_CHECKING:` exist for annotations, not at run time
+            mod.typing_only = set()           # type: ignore[attr-defined]
+            runtime: Set[str] = set()
+            for st in mod.tree.body:
+                if isinstance(st, ast.If) and isinstance(st.test, ast.Name) and st.test.id == "TYPE_CHECKING":
+                    for x in st.body:
+                        if isinstance(x, (ast.Import, ast.ImportFrom)):
+                            for a in x.names:
+                                mod.typing_only.add(a.asname or a.name.split(".")[0])      # type: ignore[attr-defined]
+                        elif isinstance(x, (ast.FunctionDef, ast.ClassDef)):
+                            mod.typing_only.add(x.name)                                    # type: ignore[attr-defined]
+                    for x in st.orelse:
+                        for n in ast.walk(x):
+                            if isinstance(n, ast.alias):
+                                runtime.add(n.asname or n.name.split(".")[0])
+                            elif isinstance(n, ast.Name) and isinstance(n.ctx, ast.Store):
+                                runtime.add(n.id)
+                else:
+                    for n in ast.walk(st):
+                        if isinstance(n, ast.alias):
+                            runtime.add(n.asname or n.name.split(".")[0])
+                        elif isinstance(n, (ast.FunctionDef, ast.ClassDef)) and n in mod.tree.body:
+                            runtime.add(n.name)
+                        elif isinstance(n, ast.Name) and isinstance(n.ctx, ast.Store):
+                            runtime.add(n.id)
+            mod.typing_only -= runtime        # type: ignore[attr-defined]
+
+    def runtime_bound(self, modname: str, name: str, _depth: int = 0) -> bool:
+        """Is `name` bound in module `modname` when the module is imported at run time (following re-exports)?"""
+        mod = self.modules.get(modname)
+        if mod is None or _depth > 12:
+            return True         # outside the analysed package: not judged here
+        if name in getattr(mod, "typing_only", ()):
+            return False
+        b = mod.bindings.get(name)
+        if b is not None and b.kind == "from" and b.module in self.modules and b.name:
+            return self.runtime_bound(b.module, b.name, _depth + 1)
+        return True
 
     def _bind_stmt(self, mod: Module, st: ast.stmt) -> None:
         b = mod.bindings
